@@ -7,7 +7,7 @@ Every program is
 
     module c12m
     contains
-      subroutine s(n, m, k, t, u, a, b, c, q)      ! arrays (0:m), q(0:m,0:m)
+      subroutine s(n, m, k, t, u, a, b, c, q)      ! arrays (0:4), q(0:4,0:4); m = 4
         <1..4 top-level statements>
       end subroutine
       subroutine inc(x) / fill(x, n) / getv(x, y)  ! helpers for the call statements
@@ -27,10 +27,10 @@ subroutine s(n, m, k, t, u, a, b, c, q)
   integer, intent(inout) :: k
   real, intent(inout) :: t
   real, intent(inout) :: u
-  real, intent(inout) :: a(0:m)
-  real, intent(inout) :: b(0:m)
-  real, intent(inout) :: c(0:m)
-  real, intent(inout) :: q(0:m,0:m)
+  real, intent(inout) :: a(0:4)
+  real, intent(inout) :: b(0:4)
+  real, intent(inout) :: c(0:4)
+  real, intent(inout) :: q(0:4,0:4)
   integer :: i
   integer :: j
 """
@@ -84,6 +84,7 @@ STATEMENTS = {
     "Ltmp": "do i = 1, n\n  t = a(i)\n  b(i) = t\nend do",
     "Lif": "do i = 1, n\n  if (a(i) > 2.0) then\n    b(i) = a(i)\n  end if\nend do",
     "Lifc": "do i = 1, n\n  if (c(i) < -2.0) then\n    b(i) = a(i)\n  end if\nend do",
+    "Lifelse": "do i = 1, n\n  if (a(i) > 2.0) then\n    b(i) = a(i)\n  else\n    c(i) = a(i)\n  end if\nend do",
     "Lq": "do j = 1, n\n  do i = 1, n\n    q(i, j) = a(i) * b(j)\n  end do\nend do",
     "k=i": "k = i",
     # conditionals: conditionally written, written on one branch only
@@ -101,7 +102,7 @@ _FULL = list(STATEMENTS)
 _MID = [k for k in _FULL if k not in ("t=t+1", "k=k+1", "c1=max", "a1+=b1",
                                        "Lq", "k=i", "getv(a,u)")]
 _Q12 = ["t=2", "u=t", "t=a2", "a1=0", "b1=a2", "ak=t", "a:=0", "a1n=b", "La=0",
-        "Lb=a", "Lfull", "Ltmp", "Lred", "Lifc", "if(t)u", "if(n)t|u", "if(k)a1",
+        "Lb=a", "Lfull", "Ltmp", "Lred", "Lifc", "Lifelse", "if(t)u", "if(n)t|u", "if(k)a1",
         "inc(t)", "fill(a)"]
 _Q3 = ["u=t", "t=a2", "a1=0", "b1=a2", "a1n=b", "La=0", "Lb=a", "Ltmp",
        "if(n)t|u", "inc(t)"]
